@@ -10,7 +10,10 @@ from . import adapter, tlc
 from .common import Check, VERIF
 
 
-def render(kind, L, T):
+IFACE = "  abstract interface\n    subroutine iface()\n    end subroutine iface\n  end interface\n"
+
+
+def render(kind, L, T, entry=True, fan=1):
     """Workspace files for a shape: T tail nodes leading into a cycle of length L (nodes 1..T+L)."""
     n = T + L
     nxt = lambda i: i + 1 if i < n else T + 1
@@ -19,12 +22,16 @@ def render(kind, L, T):
         for i in range(1, n + 1):
             f["m%d.f90" % i] = "module m%d\n  use m%d\n  implicit none\n  integer :: v%d\nend module m%d\n" % (i, nxt(i), i, i)
         f["main.f90"] = "program main\n  use m1\n  implicit none\n  v1 = 1\n  print *, v%d\nend program main\n" % n
+        if not entry:
+            del f["main.f90"]
     elif kind == "usemixed":
         # a USE cycle that mixes plain and ONLY edges, entered from a scope outside the cycle
         for i in range(1, n + 1):
             only = ", only: v%d" % nxt(i) if i % 2 == 0 or n == 1 else ""
             f["m%d.f90" % i] = "module m%d\n  use m%d%s\n  implicit none\n  integer :: v%d\nend module m%d\n" % (i, nxt(i), only, i, i)
         f["main.f90"] = "program main\n  use m1\n  use m%d, only: v%d\n  implicit none\n  v1 = 1\n  print *, v%d\nend program main\n" % (n, n, n)
+        if not entry:
+            del f["main.f90"]
     elif kind == "extends":
         body = "module tm\n  implicit none\n"
         for i in range(1, n + 1):
@@ -56,22 +63,53 @@ def render(kind, L, T):
         f["bm.f90"] = body
         f["main.f90"] = "program main\n  use bm\n  implicit none\n  type(t) :: v\n  call v%b1()\nend program main\n"
     elif kind == "include":
+        # the cyclic files sort before and after the entry point (a.., z..): the order of indexing matters
         for i in range(1, n + 1):
-            f["i%d.f90" % i] = "integer :: w%d\ninclude 'i%d.f90'\n" % (i, nxt(i))
-        f["main.f90"] = "program main\n  implicit none\n  include 'i1.f90'\n  w1 = 1\nend program main\n"
+            f["i%d.f90" % i] = "integer :: w%d\n" % i + "include 'i%d.f90'\n" % nxt(i) * fan
+        if entry:
+            f["main.f90" if T == 0 else "a_main.f90"] = "program main\n  implicit none\n  include 'i1.f90'\n  w1 = 1\nend program main\n"
+    elif kind == "ppinclude":
+        # without an outside entry point the cycle runs through the source file itself: the last header names main.F90
+        for i in range(1, n + 1):
+            target = "main.F90" if (not entry and i == n) else "h%d.h" % nxt(i)
+            f["h%d.h" % i] = "#define W%d %d\n" % (i, i) + '#include "%s"\n' % target * fan
+        f["main.F90"] = '#include "h1.h"\n' * (1 if entry else fan) + "program main\n  implicit none\n  integer :: w\n  w = W1\nend program main\n"
+    elif kind in ("procptr", "procptriface", "mixedptr"):
+        body = "module pm\n  implicit none\n" + IFACE
+        for i in range(1, n + 1):
+            if kind == "procptr":
+                body += "  procedure(iface), pointer :: p%d => p%d\n" % (i, nxt(i))
+            elif kind == "procptriface":
+                body += "  procedure(p%d), pointer :: p%d\n" % (nxt(i), i)
+            elif i % 2:
+                body += "  integer, pointer :: p%d => p%d\n" % (i, nxt(i))
+            else:
+                body += "  procedure(iface), pointer :: p%d => p%d\n" % (i, nxt(i))
+        body += "end module pm\n"
+        f["pm.f90"] = body
+        f["main.f90"] = "program main\n  use pm\n  implicit none\n  call p1()\n  call p%d()\nend program main\n" % n
     return f
 
 
 def run_shape(job):
-    kind, L, T, limit = job
-    d = adapter.mkws(render(kind, L, T))
+    kind, L, T, entry, fan, limit = job
+    d = adapter.mkws(render(kind, L, T, entry, fan))
     try:
-        p = subprocess.Popen([sys.executable, os.path.join(VERIF, "harness", "c20_child.py"), d, str(limit)], stdout=subprocess.PIPE, stderr=subprocess.DEVNULL, text=True, cwd=VERIF)
-        try:
-            so, _ = p.communicate(timeout=limit + 20)
-        except subprocess.TimeoutExpired:
-            p.kill()
-            so, _ = p.communicate()
+        # own session + output to a file: a spinning pool worker of the server must not keep a pipe open or survive
+        outf = os.path.join(d, "_child.out")
+        with open(outf, "w") as fh:
+            p = subprocess.Popen([sys.executable, os.path.join(VERIF, "harness", "c20_child.py"), d, str(limit)], stdout=fh, stderr=subprocess.DEVNULL,
+                                 cwd=VERIF, start_new_session=True)
+            try:
+                p.wait(timeout=limit + 10)
+            except subprocess.TimeoutExpired:
+                pass
+            try:
+                os.killpg(p.pid, 9)
+            except OSError:
+                pass
+            p.wait()
+        so = open(outf).read()
         last = None
         for line in (so or "").splitlines():
             if line.startswith("RESULT"):
@@ -84,7 +122,7 @@ def run_shape(job):
 def main(tier, seed):
     ck = Check("C20", tier, seed)
     ck.assumptions = [
-        "cycle catalogue: USE, EXTENDS (with overriding bindings), submodule ancestry, pointer =>, ASSOCIATE, procedure binding =>, INCLUDE; cycle lengths 1..4 (quick 1..3), tails 0..1; every positional request at every identifier plus diagnostics",
+        "cycle catalogue: USE, EXTENDS (with overriding bindings), submodule ancestry, pointer =>, ASSOCIATE, procedure binding =>, procedure pointers (=> and interface, mixed with data pointers), INCLUDE and #include (one or two include lines per file), with and without a main program outside the cycle; cycle lengths 1..4 (quick 1..3), tails 0..1; every positional request at every identifier plus diagnostics",
         "each workspace runs in its own child process under a hard wall-clock limit (two shapes never return on the pinned commit and the server swallows in-process alarms)",
         "bounded time = the child finishes within the limit (60 s for <= 40 lines in total; median < 1 s)",
     ]
@@ -102,19 +140,24 @@ def main(tier, seed):
     maxl = 3 if tier == "quick" else 4
     for st in tlc.dump_states("Cycles", "Cycles_MC.cfg", info=info):
         if st["steps"] == 0 and st["L"] <= maxl and st["T"] <= 1:
-            shapes.add((st["kind"], st["L"], st["T"]))
+            shapes.add((st["kind"], st["L"], st["T"], st["entry"], st["fan"]))
     ck.add_tlc("Cycles_Gen", info["result"])
-    jobs = [(k, L, T, 60) for k, L, T in sorted(shapes)]
+    jobs = [sh + (30,) for sh in sorted(shapes)]
     from concurrent.futures import ThreadPoolExecutor
     with ThreadPoolExecutor(max_workers=12) as ex:
         results = list(ex.map(run_shape, jobs))
-    for (kind, L, T, _lim), res in zip(jobs, results):
-        ck.count(key=(kind, L, T))
+    for (kind, L, T, entry, fan, _lim), res in zip(jobs, results):
+        ck.count(key=(kind, L, T, entry, fan))
         shape = {"cycle:%s" % kind, "len:%d" % L}
+        if not entry:
+            shape.add("entry:none")
+        if fan > 1:
+            shape.add("fan:%d" % fan)
+        files = render(kind, L, T, entry, fan)
         if res["phase"] != "done":
             where = res.get("current", ["", "", "", res["phase"]])
             ck.violation(shape | {"hang:" + (res["phase"] if res["phase"] != "queries" else "query:" + str(where[3]).split("/")[-1])},
-                         {"kind": "shape", "shape": [kind, L, T], "files": render(kind, L, T), "result": res})
+                         {"kind": "shape", "shape": [kind, L, T, entry, fan], "files": files, "result": res})
             continue
         errs = res["errors"]
         if errs:
@@ -124,16 +167,17 @@ def main(tier, seed):
                 cls = "RecursionError" if "recursion" in msg.lower() else msg.split(":")[0][:40]
                 kinds.add((e[0].split("/")[-1], cls))
             for meth, cls in sorted(kinds):
-                ck.violation(shape | {"method:" + meth, "error:" + cls}, {"kind": "shape", "shape": [kind, L, T], "files": render(kind, L, T), "errors": errs[:10]})
+                ck.violation(shape | {"method:" + meth, "error:" + cls}, {"kind": "shape", "shape": [kind, L, T, entry, fan], "files": files, "errors": errs[:10]})
         else:
             ck.traces += 1
     ck.note("shapes", len(jobs))
-    ck.sample({"shape": list(jobs[0][:3]), "files": render(*jobs[0][:3])})
+    ck.sample({"shape": list(jobs[0][:5]), "files": render(*jobs[0][:5])})
     return ck.finish()
 
 
 def replay(path):
     rec = json.load(open(path))
-    res = run_shape(tuple(rec["shape"]) + (60,))
+    sh = list(rec["shape"]) + [True, 1][len(rec["shape"]) - 3:]
+    res = run_shape(tuple(sh) + (30,))
     print(json.dumps(res)[:2000])
     return 1 if (res["phase"] != "done" or res["errors"]) else 0
